@@ -334,6 +334,9 @@ type kase struct {
 	Expect string `json:"expect"` // accept | reject
 	Tx     txJ    `json:"tx"`
 	Human  string `json:"human,omitempty"`
+	// call-sequence part (seq.go)
+	Part string    `json:"part,omitempty"` // seq-verdict | seq-pure | dirty
+	Seq  []seqStep `json:"seq,omitempty"`
 }
 
 func hx(s string) string { return hex.EncodeToString([]byte(s)) }
@@ -1280,6 +1283,11 @@ func run(c *fw.Ctx) {
 			c.Sample(kase{Base: h.Name, Height: h.Height, Mut: "none (honest base)", Expect: "accept", Tx: toJ(&h.Tx, h.Sig), Human: human(&h.Tx)})
 		}
 	}
+	// call sequences: history independence, aliasing, unchanged arguments, dirty destinations
+	r.seqVerdicts(keys, false)
+	r.seqPure(keys, false)
+	r.dirtyDestination(keys, false)
+	c.Note("dirty_destination_note", "observation, not flagged (no admission path decodes into a reused object; upstream go-ethereum behaves the same): t := new(eth_tx.Transaction); rlp.DecodeBytes(encA, t); t.Hash() or eth_tx.Sender(signer, t); rlp.DecodeBytes(encB, t) => t.Hash() / Sender still answer for A (DecodeRLP does not reset the hash/from caches) while the fields are B's. Sign.GetR/GetS return big.Int values sharing words with the Sign (counter sign_getr_result_shares_words_with_sign).")
 	c.NontrivialN(r.nontriv)
 	c.Count("equivalent_reencodings_accepted(observation)", r.equivOK)
 	c.Note("boundary_shift_note", "GenHash concatenates the hashed fields without separators, so moving bytes across one field boundary (two-field change) keeps hash and signature; such variants are executed and counted (boundary_shift_variants_accepted) but are outside the property's quantifier (single-field / single-bit mutations) and the hash is still the node's digest of the content: not a violation")
@@ -1295,6 +1303,10 @@ func replay(c *fw.Ctx, raw json.RawMessage) {
 		panic(err)
 	}
 	boot()
+	if k.Part != "" {
+		replaySeq(c, k)
+		return
+	}
 	tx, sig := fromJ(k.Tx)
 	o := observe(tx, sig, k.Height)
 	fmt.Printf("replay %s / %s at height %d: %s (expected %s)\n", k.Base, k.Mut, k.Height, o, k.Expect)
@@ -1311,7 +1323,9 @@ func main() {
 			"A mutant is counted when it differs from an accepted base in exactly one authenticated field (Data, Nonce, Source, Target, Type, Time, ExtraData, ChainId, Hash, Sign for native; Source, Target, Nonce, Data, Hash, ChainId, Type and the RLP payload for wrapped Ethereum transactions): every single-bit flip of the field, every value of a per-field substitution alphabet that differs from the original, " +
 			"plus recompute classes (content bit/field change with recomputed hash and the original signature; signed by another key; Source of another key; honestly signed for a foreign chain id or, for Ethereum payloads, without any chain id; height on the other side of the chain-id fork). Single-boundary re-partitions of the native digest preimage (bytes moved between two adjacent hashed fields, hash and signature unchanged) are executed and counted as an observation only: two fields change, outside the statement's quantifier. Every such mutant must be rejected; a panic is not a rejection. " +
 			"Native transactions: the digest covers the raw bytes, so every byte change counts. Wrapped Ethereum transactions: the payload bytes are compared exactly (the declared hash is the Keccak of the payload bytes); " +
-			"a wrapper string (Source, Target, ChainId, Data JSON, hex spelling of ExtraData) that parses to the same content under the node's own parsing (hex case, 0X prefix, JSON key case, numerically equal chain id) and the v/v-27 spelling of the same recovery id are equivalent encodings: executed and counted, never flagged.",
+			"a wrapper string (Source, Target, ChainId, Data JSON, hex spelling of ExtraData) that parses to the same content under the node's own parsing (hex case, 0X prefix, JSON key case, numerically equal chain id) and the v/v-27 spelling of the same recovery id are equivalent encodings: executed and counted, never flagged. " +
+			"Call-sequence part: for a fresh content per sequence, every ordered pair and triple of its related transactions (honest by A, honest by B with the same fields, content of A signed by B, recovery-id alias, mirrored signature, re-hashed data change, flipped signature bit; for Ethereum: honest A, honest B same content, B-signed declaring A, mirrored / corrupted signature re-hashed, wrapper nonce change) is verified in that order and the first one again: every verdict must be its class verdict whatever was verified before, arguments unchanged. " +
+			"Ordered pairs over small pools for GenHash, Sign, Bytes, BytesToSign, RecoverPubkey, Verify, GetAddress/GetID and eth_tx NewTransaction / SignTx / Sender / ConvertTx / accessors: first results intact after a second call and after the caller overwrote everything it owns, arguments unchanged, same result on second use. rlp decoding of an Ethereum payload and Sign.UnmarshalText into an object that holds another value (read or not) or the leftovers of a failed parse are compared with a fresh parse and differences counted only (no admission path reuses such objects).",
 		Assumptions: []string{
 			"libsecp256k1 signing used by the harness to produce honest signatures",
 			"harness reference encoders (SHA-256 preimage order, RLP, Keccak-256, Ethereum wrapper JSON layout)",
